@@ -1170,7 +1170,10 @@ func genRanges(t *rapid.T, es []Entry) []string {
 		}
 		a := netip.MustParseAddr(e.Addr)
 		if a.Is4() {
-			switch gen.U(t, 5, "v4range") {
+			switch gen.U(t, 6, "v4range") {
+			case 5:
+				// the same single address the way a dual-stack listener prints it
+				out = append(out, "::ffff:"+a.String())
 			case 0:
 				out = append(out, a.String())
 			case 1:
